@@ -4,6 +4,7 @@ import (
 	"bytes"
 	"encoding/xml"
 	"fmt"
+	"github.com/zerx-lab/wordZero/pkg/markdown"
 	"image"
 	"image/color"
 	"image/gif"
@@ -382,8 +383,25 @@ func (w *World) applyMisc(ds *Doc, op sim.Op, o *Obs) bool {
 				st.ParagraphPr.Justification.Val = "right"
 			}
 		}
-	case "obs": // I[0]=1: include the per-document note counts
+	case "obs": // I[0]=1: include the per-document note counts; I[1]: 0 no export, 1 Markdown export without options, >= 2 with options (bits of I[1]-2)
 		o.Res = Observe(d, op.Int(0) != 0)
+		if m := op.Int(1); m > 0 {
+			// exported through the world's ONE Exporter, as a program that exports several documents uses it
+			ex, _ := w.Extra["md-exporter"].(*markdown.Exporter)
+			if ex == nil {
+				ex = markdown.NewExporter(nil)
+				w.Extra["md-exporter"] = ex
+			}
+			var eo *markdown.ExportOptions
+			if m >= 2 {
+				eo = markdown.DefaultExportOptions()
+				b := m - 2
+				eo.UseGFMTables, eo.PreserveFootnotes, eo.PreserveLineBreaks, eo.IncludeMetadata = b&1 != 0, b&2 != 0, b&4 != 0, b&8 != 0
+			}
+			md, err := ex.ExportToString(d, eo)
+			o.Res += fmt.Sprintf("md=%s/%v;", sim.Digest([]byte(md)), err != nil)
+			w.Stats.Probe("markdown_exports")
+		}
 	default:
 		return false
 	}
@@ -484,7 +502,10 @@ func Observe(d *document.Document, counts bool) string {
 			keep, _ := t.IsRowKeepTogether(i)
 			rh, _ := t.GetRowHeight(i)
 			fmt.Fprintf(&tb, "r%d:%v,%v,%v|", i, hdr, keep, rh != nil)
-			_ = t.ForEachInRow(i, func(col int, cell *document.TableCell, text string) error { fmt.Fprintf(&tb, "%d:%s,", col, text); return nil })
+			_ = t.ForEachInRow(i, func(col int, cell *document.TableCell, text string) error {
+				fmt.Fprintf(&tb, "%d:%s,", col, text)
+				return nil
+			})
 			for j := 0; j < cols && j < 6; j++ {
 				mi, e1 := t.GetMergedCellInfo(i, j)
 				cf, e2 := t.GetCellFormat(i, j)
@@ -495,7 +516,10 @@ func Observe(d *document.Document, counts bool) string {
 			}
 		}
 		if cols > 0 {
-			_ = t.ForEachInColumn(0, func(row int, cell *document.TableCell, text string) error { fmt.Fprintf(&tb, "%d:%s,", row, text); return nil })
+			_ = t.ForEachInColumn(0, func(row int, cell *document.TableCell, text string) error {
+				fmt.Fprintf(&tb, "%d:%s,", row, text)
+				return nil
+			})
 		}
 		found, _ := t.FindCells(func(row, col int, cell *document.TableCell, text string) bool { return text != "" })
 		lay := t.GetTableLayout()
